@@ -25,12 +25,12 @@ claimed = {
  "C10": ("E2 repl/pushpull", "exploration", "5 C10", "sequential two-replica simulation with lossy gossip followed by real LocalState/MergeRemoteState exchange; per-replica LWW reference model",
          "Interleaved histories on A and B with each gossip batch delivered or lost, then snapshot A->B, B->A, fresh-B or both; the merged replica must equal the LWW merge of the two reference models (additions and removals), and both directions must yield identical listings.",
          "Clocks synchronised (skew is C08's subject)."),
- "C11": ("E1 simbroker/lifecycle", "exploration", "5 C11", "deterministic whole-broker simulation with fake time: session scripts with idle periods relative to the keep-alive and one termination cause (DISCONNECT, cut, close, silence, protocol error, node stop), gossip faults, settle, then traffic towards every session",
+ "C11": ("E1 simbroker/lifecycle + displace", "exploration", "5 C11", "deterministic whole-broker simulation with fake time: session scripts with idle periods relative to the keep-alive and one termination cause (DISCONNECT, cut, close, link dying under a broker write, silence, protocol error, node stop; second variant: displacement by a newer session with the same client id), gossip faults, settle, then traffic towards every session",
          "No spurious end while the client stays within 0.9x keep-alive; on end the broker closes the connection within a cause-specific bound, no node lists the session or its subscriptions after the settle, nothing more is written to it, and at quiescence every listed subscription belongs to a listed, locally registered session.",
          "The allowance is taken as 2x keep-alive (+5 s bound); keep-alive 0 not generated; one open known finding (gossip delivered after the leave notification)."),
  "C19": ("E2 tries + E3 lockstep (-race)", "exploration", "5 C19", "sequential simulation of topics.Store and subscriptions.Tree against a Go map keyed by full topic strings, with dump/load rebuild as the restart-like event, plus PRNG-scheduled concurrent tasks under the race detector with a porcupine map model (lockstep engine)",
          "Insert/replace/remove/upsert histories over keys with shared prefixes with a dump/load round trip at a random position; after every operation every key of the universe, the count and the iteration are compared with the map.",
-         "Keys without wildcards or empty levels (those are C01's)."),
+         "Keys without wildcards or empty levels (those are C01's). Half of the sequential cases compare with the map only at the end, because queries are not free of side effects on the store."),
 }
 pending = {
  "C03": "check under construction (E1 retx profile)", "C05": "check under construction (E1 inbound profile)", "C07": "check under construction (E1 retained profile)",
